@@ -35,3 +35,20 @@ func VerifNewReader(sheets []*Sheet, meta VerifMeta) *Reader {
 func VerifFindContentBounds(sheet *Sheet) (minRow, maxRow, minCol, maxCol int) {
 	return (&Reader{}).findContentBounds(sheet)
 }
+
+// Verification hooks (add-only, compiled only with -tags verif): exported
+// read-only views of unexported state and helpers for the external
+// correspondence harness.
+
+// VerifSharedStrings returns the shared-string table parseSharedStrings built.
+func (r *Reader) VerifSharedStrings() []string {
+	return append([]string(nil), r.sharedStrings...)
+}
+
+// VerifContentBounds returns findContentBounds(sheet) as it is.
+func (r *Reader) VerifContentBounds(sheet *Sheet) (minRow, maxRow, minCol, maxCol int) {
+	return r.findContentBounds(sheet)
+}
+
+// VerifEscapeMarkdown is escapeMarkdown.
+func VerifEscapeMarkdown(s string) string { return escapeMarkdown(s) }
